@@ -1057,8 +1057,28 @@ fn cmd_c13(n: usize) -> (u64, Vec<String>) {
     let bash = std::path::PathBuf::from("/bin/bash");
     let payloads: Vec<Vec<u8>> = vec![b"".to_vec(), b"a\n".to_vec(), b"a".to_vec(), b"a\r\nb\r\n".to_vec(), b"x\ry\r\n\rz\r".to_vec(), b"\r\n".to_vec(), b"\r\r\n".to_vec(), b"tab\there\n".to_vec(),
         b"\x1b[1mbold\x1b[0m\n".to_vec(), b"\xff\xfe\n".to_vec(), b"nul\x01\x7f\n".to_vec(), "\u{e9}\u{1f600}\n".as_bytes().to_vec(), b"  lead and trail  \n".to_vec(), b"\n\n\n".to_vec(), b"last\r".to_vec()];
-    let payloads: Vec<Vec<u8>> = payloads.into_iter().take(5 + 4 * n).collect();
+    let mut payloads: Vec<Vec<u8>> = payloads.into_iter().take(5 + 4 * n).collect();
+    // "text resembling scrut's internal markers": the divider of the single-script executor without / with a made-up salt, inside a line, unterminated
+    for m in [&b"~~~~~~~~EXECDIVIDER::x\n"[..], b"~~~~~~~~EXECDIVIDER::salt::0::0\n", b"a ~~~~~~~~EXECDIVIDER:: b\n", b"z\n~~~~~~~~EXECDIVIDER::"] { payloads.push(m.to_vec()); }
+    if n >= 3 { payloads.push(vec![b'a'; 1_500_000]); payloads.push([vec![b'b'; 700_000], b"\r\n".to_vec(), vec![b'c'; 700_000]].concat()); }
     let octal = |b: &[u8]| -> String { b.iter().map(|x| format!("\\{:03o}", x)).collect() };
+    // the shell command that writes exactly these bytes to stdout: printf with octal escapes, long runs of one byte through head | tr
+    let writes = |b: &[u8]| -> String {
+        let mut parts: Vec<String> = vec![];
+        let mut i = 0;
+        let mut lit: Vec<u8> = vec![];
+        while i < b.len() {
+            let mut j = i;
+            while j < b.len() && b[j] == b[i] { j += 1; }
+            if j - i >= 1000 {
+                if !lit.is_empty() { parts.push(format!("printf '{}'", octal(&lit))); lit.clear(); }
+                parts.push(format!("head -c {} /dev/zero | tr '\\0' '\\{:03o}'", j - i, b[i]));
+            } else { lit.extend_from_slice(&b[i..j]); }
+            i = j;
+        }
+        if !lit.is_empty() || parts.is_empty() { parts.push(format!("printf '{}'", octal(&lit))); }
+        format!("{{ {}; }}", parts.join("; "))
+    };
     let drop_cr = |b: &[u8]| -> Vec<u8> { let mut v = vec![]; for i in 0..b.len() { if b[i] == 13 && i + 1 < b.len() && b[i + 1] == 10 { continue; } v.push(b[i]); } v };
     let mut cases = 0u64;
     let mut bad: Vec<String> = vec![];
@@ -1067,7 +1087,7 @@ fn cmd_c13(n: usize) -> (u64, Vec<String>) {
         for err in [&payloads[(io + 3) % payloads.len()], &payloads[0]] {
             for code in [0i32, 7] {
                 for keep in [None, Some(true)] {
-                    let cmd = format!("printf '{}'; printf '{}' 1>&2; exit {code}", octal(out), octal(err));
+                    let cmd = format!("{}; {} 1>&2; exit {code}", writes(out), writes(err));
                     let config = TestCaseConfig { keep_crlf: keep, ..TestCaseConfig::empty() };
                     let tc = TestCase { title: "t".into(), shell_expression: cmd.clone(), expectations: vec![], exit_code: None, line_number: 1, config };
                     let (wo, we) = if keep == Some(true) { (out.clone(), err.clone()) } else { (drop_cr(out), drop_cr(err)) };
@@ -1103,7 +1123,7 @@ fn cmd_c13(n: usize) -> (u64, Vec<String>) {
     {
         use scrut::executors::bash_script_executor::BashScriptExecutor;
         for (stream, redirect) in [("stdout", ""), ("stderr", " 1>&2")] {
-            let tcs: Vec<TestCase> = payloads.iter().enumerate().map(|(i, p)| TestCase { title: "t".into(), shell_expression: format!("printf '{}'{redirect}; (exit {})", octal(p), i % 3),
+            let tcs: Vec<TestCase> = payloads.iter().enumerate().map(|(i, p)| TestCase { title: "t".into(), shell_expression: format!("{}{redirect}; (exit {})", writes(p), i % 3),
                 expectations: vec![], exit_code: None, line_number: i + 1, config: TestCaseConfig { keep_crlf: Some(true), ..TestCaseConfig::empty() } }).collect();
             let refs: Vec<&TestCase> = tcs.iter().collect();
             cases += tcs.len() as u64;
@@ -1134,7 +1154,9 @@ fn cmd_c13(n: usize) -> (u64, Vec<String>) {
         }
     }
     // the command reaches the shell verbatim
-    for text in ["it's", "a \"quoted\" word", "back\\slash \\n", "$HOME is not expanded in single quotes", "star * and ? and [a-z]", "semi; colon && and || pipe |", "{state_directory} {work_directory}", "trailing space  ", "%s %d"] {
+    for text in ["it's", "a \"quoted\" word", "back\\slash \\n", "$HOME is not expanded in single quotes", "star * and ? and [a-z]", "semi; colon && and || pipe |", "{state_directory} {work_directory}", "trailing space  ", "%s %d",
+        // the placeholders of the runner's own script template
+        "{persist_state} {excluded_variables}", "{name} {shell_expression} {state_directory}"] {
         cases += 1;
         let quoted = format!("'{}'", text.replace('\'', "'\\''"));
         let cmd = format!("printf '%s\\n' {quoted}");
@@ -1144,6 +1166,28 @@ fn cmd_c13(n: usize) -> (u64, Vec<String>) {
             Ok(os) if os.len() == 1 && os[0].stdout.to_bytes() == format!("{text}\n").into_bytes() => {}
             Ok(os) => report("verbatim", format!("the shell printed {:?} for the text {text:?}", os.first().map(|o| String::from_utf8_lossy(&o.stdout.to_bytes()).to_string())), &cmd, &mut bad),
             Err(e) => report("executor-error", format!("StatefulExecutor fails: {e}"), &cmd, &mut bad),
+        }
+    }
+    // with strip_ansi_escaping set, escape sequences are removed -- nothing else (TAB, a lone CR, a kept CR LF stay)
+    {
+        cases += 1;
+        let cmd = "printf 'a\\r\\nb\\tc\\rd\\033[1m!\\033[0m\\n'";
+        let tc = TestCase { title: "t".into(), shell_expression: cmd.into(), expectations: vec![], exit_code: None, line_number: 1, config: TestCaseConfig { strip_ansi_escaping: Some(true), keep_crlf: Some(true), ..TestCaseConfig::empty() } };
+        match SubprocessRunner::new(bash.clone()).run("t", &tc, &context) {
+            Ok(o) if o.stdout.to_bytes() == b"a\r\nb\tc\rd!\n".to_vec() => {}
+            Ok(o) => report("ansi-strips-more", format!("strip_ansi_escaping with keep_crlf: `a CR LF b TAB c CR d ESC[1m ! ESC[0m LF` recorded as {:?}; only the two escape sequences may go", String::from_utf8_lossy(&o.stdout.to_bytes())), cmd, &mut bad),
+            Err(e) => report("runner-error", format!("{e}"), cmd, &mut bad),
+        }
+    }
+    // "for outputs of any size": 200 000 CR LF lines (600 kB) -- in a process of its own, which must not die
+    {
+        cases += 1;
+        let exe = std::env::current_exe().expect("own path");
+        match std::process::Command::new(&exe).arg("c13-deep").output() {
+            Ok(o) if o.status.success() && String::from_utf8_lossy(&o.stdout).contains("\"violations\":[]") => {}
+            Ok(o) => report("many-crlf", format!("200000 lines ending in CR LF: {} {}", if o.status.code().is_none() { "the process was killed by a signal (stack overflow in a recursive function?)".to_string() } else { format!("exit {:?}", o.status.code()) },
+                String::from_utf8_lossy(&o.stdout).chars().take(200).collect::<String>()), "yes $'x\\r' | head -n 200000", &mut bad),
+            Err(e) => report("runner-error", format!("{e}"), "c13-deep", &mut bad),
         }
     }
     // ANSI only when asked; partial output before a timeout keeps stream and transformations
@@ -1471,6 +1515,79 @@ fn cmd_glob(n: usize) -> (u64, Vec<String>) {
     (cases, bad)
 }
 
+
+/// probe (observations only): marker-like and large outputs through both executors
+fn cmd_c13_probe() -> (u64, Vec<String>) {
+    use scrut::executors::bash_runner::BashRunner;
+    use scrut::executors::bash_script_executor::BashScriptExecutor;
+    use scrut::executors::context::Context;
+    use scrut::executors::executor::Executor;
+    use scrut::executors::runner::Runner;
+    use scrut::executors::stateful_executor::StatefulExecutor;
+    let work = tempfile::tempdir().expect("work dir");
+    let temp = tempfile::tempdir().expect("temp dir");
+    let context = Context { work_directory: work.path().to_path_buf(), temp_directory: temp.path().to_path_buf(), file: std::path::PathBuf::from("doc.md"), config: DocumentConfig::default() };
+    let cmds = ["echo '~~~~~~~~EXECDIVIDER::x'", "echo '~~~~~~~~EXECDIVIDER::salt::0::0'", "echo 'a ~~~~~~~~EXECDIVIDER:: b'", "printf '~~~~~~~~EXECDIVIDER::'", "echo '{state_directory}'; echo \"$SCRUT_TEST\" | wc -c",
+        "head -c 3000000 /dev/zero | tr '\\0' 'a'; head -c 3000000 /dev/zero | tr '\\0' 'b' 1>&2", "yes line | head -n 400000; yes err | head -n 400000 1>&2"];
+    let mut out = vec![];
+    for c in cmds {
+        let tcs = [TestCase { title: "t".into(), shell_expression: "echo first".into(), expectations: vec![], exit_code: None, line_number: 1, config: TestCaseConfig::empty() },
+            TestCase { title: "t".into(), shell_expression: c.into(), expectations: vec![], exit_code: None, line_number: 2, config: TestCaseConfig::empty() },
+            TestCase { title: "t".into(), shell_expression: "echo last".into(), expectations: vec![], exit_code: None, line_number: 3, config: TestCaseConfig::empty() }];
+        let refs: Vec<&TestCase> = tcs.iter().collect();
+        for which in ["stateful", "script"] {
+            let started = std::time::Instant::now();
+            let res = if which == "stateful" {
+                StatefulExecutor::new(Box::new(|state: &std::path::Path| Box::new(BashRunner::new(&std::path::PathBuf::from("/bin/bash"), state)) as Box<dyn Runner>)).execute_all(&refs, &context)
+            } else { BashScriptExecutor::new(&std::path::PathBuf::from("/bin/bash")).execute_all(&refs, &context) };
+            let txt = match res {
+                Ok(os) => os.iter().map(|o| { let so = o.stdout.to_bytes(); let se = o.stderr.to_bytes(); format!("[{:?} out {}B {:?} err {}B {:?}]", o.exit_code, so.len(), String::from_utf8_lossy(&so[..so.len().min(50)]), se.len(), String::from_utf8_lossy(&se[..se.len().min(30)])) }).collect::<Vec<_>>().join(" "),
+                Err(e) => format!("ERR {}", e.to_string().chars().take(300).collect::<String>()),
+            };
+            out.push(format!("{{\"cmd\":{},\"executor\":{},\"took\":{},\"result\":{}}}", jstr(c), jstr(which), jstr(&format!("{:?}", started.elapsed())), jstr(&txt)));
+        }
+    }
+    (cmds.len() as u64, out)
+}
+
+
+fn cmd_c06_probe() -> (u64, Vec<String>) {
+    use scrut::parsers::markdown::{MarkdownParser, DEFAULT_MARKDOWN_LANGUAGES};
+    use scrut::parsers::parser::Parser;
+    let docs = ["# T\n\n```scrut \n$ echo a\n```\n", "```scrut {timeout: 3s} \n$ echo a\n```\n", "````\n```scrut\n$ echo a\n```\n````\n", "Title A\n```bash\nx\n```\nMore\n```scrut\n$ echo a\n```\n",
+        "``` \n$ echo a\n```\n", "```scrut\t\n$ echo a\n```\n", "```scrut\r\n$ echo a\r\n```\r\n", "# T\n\n```scrut\n$ echo a\n``` \n\n```scrut\n$ echo b\n```\n"];
+    let mut out = vec![];
+    for d in docs {
+        let maker = std::sync::Arc::new(ExpectationMaker::new(RuleRegistry::default()));
+        let txt = match MarkdownParser::new(maker, DEFAULT_MARKDOWN_LANGUAGES, None).parse(d) {
+            Ok((_, tcs)) => tcs.iter().map(|t| format!("[title={:?} expr={:?} line={} timeout={:?}]", t.title, t.shell_expression, t.line_number, t.config.timeout)).collect::<Vec<_>>().join(" "),
+            Err(e) => format!("ERR {e}"),
+        };
+        out.push(format!("{{\"doc\":{},\"result\":{}}}", jstr(d), jstr(&txt)));
+    }
+    (docs.len() as u64, out)
+}
+
+
+/// one large output with 200 000 CR LF pairs through the runner (run as a child process of `c13`: a stack overflow kills only the child)
+fn cmd_c13_deep() -> (u64, Vec<String>) {
+    use scrut::executors::context::Context;
+    use scrut::executors::runner::Runner;
+    use scrut::executors::subprocess_runner::SubprocessRunner;
+    let work = tempfile::tempdir().expect("work dir");
+    let temp = tempfile::tempdir().expect("temp dir");
+    let context = Context { work_directory: work.path().to_path_buf(), temp_directory: temp.path().to_path_buf(), file: std::path::PathBuf::from("doc.md"), config: DocumentConfig::default() };
+    let cmd = "yes $'x\\r' | head -n 200000";
+    let tc = TestCase { title: "t".into(), shell_expression: cmd.into(), expectations: vec![], exit_code: None, line_number: 1, config: TestCaseConfig::empty() };
+    let want: Vec<u8> = b"x\n".repeat(200000);
+    let bad = match SubprocessRunner::new(std::path::PathBuf::from("/bin/bash")).run("t", &tc, &context) {
+        Ok(o) if o.stdout.to_bytes() == want => vec![],
+        Ok(o) => vec![format!("{{\"why\":{}}}", jstr(&format!("C13: recorded {} bytes, expected {}", o.stdout.to_bytes().len(), want.len())))],
+        Err(e) => vec![format!("{{\"why\":{}}}", jstr(&format!("C13: runner error {e}")))],
+    };
+    (1, bad)
+}
+
 fn cmd_cram_probe() -> (u64, Vec<String>) {
     use scrut::parsers::cram::CramParser;
     use scrut::parsers::parser::Parser;
@@ -1525,6 +1642,9 @@ fn main() {
         "markdown" => cmd_markdown(),
         "cram-probe" => cmd_cram_probe(),
         "c10-probe" => cmd_c10_probe(),
+        "c06-probe" => cmd_c06_probe(),
+        "c13-probe" => cmd_c13_probe(),
+        "c13-deep" => cmd_c13_deep(),
         "c15" => cmd_c15(args.get(2).and_then(|s| s.parse().ok()).unwrap_or(2)),
         "c14" => cmd_c14(match (args.get(2).and_then(|s| s.parse().ok()), args.get(3).and_then(|s| s.parse().ok())) { (Some(r), Some(l)) => Some((r, l)), _ => None }),
         "leaves" => cmd_leaves(args.get(2).map(|s| s.as_str()).unwrap_or("markdown")),
